@@ -1,17 +1,20 @@
 ---------------------------- MODULE Trace_TzIndex ----------------------------
 (* Judges recorded conversions of the real moment.py against TzIndex.  Three kinds of cases (one kind  *)
 (* per file), c.k =                                                                                    *)
-(*  "syn"   a synthetic zone installed into moment's zone table and probed over a window of hours:     *)
+(*  "syn"   a synthetic zone (of the design model, or a random larger one; WellFormed is checked)      *)
+(*          installed into moment's zone table and probed over a window of hours:                      *)
 (*          [inp |-> [z, lo, hi], out |-> [ts, loc, dt]] judged by TzIndex!Fails.  The entries also   *)
 (*          carry what the harness' readers of raw zone records (used for the bundled zones, where    *)
 (*          TLC cannot do the arithmetic) say about the same probe; they must equal the definitions   *)
-(*          of the specification: c = Cand / offset in force, ex = the local time exists, um / at =   *)
+(*          of the specification: c = Cand / offset in force, ex = the local time exists, dx = the    *)
+(*          day is not skipped as a whole, um / at =                                                  *)
 (*          offset in force at the UTC midnight / at the returned instant  ("C34.harness")            *)
 (*  "real"  a bundled zone: timestamps, dates and offsets are opaque ASCII tokens;                     *)
 (*          ts  [t, b, off, c]   instant, converted back, offset applied, raw candidates              *)
 (*          loc [l, f, off, c]   local time, favoured offset, offset assigned, raw candidates         *)
-(*          dt  [d, back, tod, ex, u]  date, date and time of day of the midnight instant converted   *)
-(*                               back, whether 00:00 exists on d, date after the zone-less round trip *)
+(*          dt  [d, back, tod, ex, dx, u]  date, date and time of day of the midnight instant         *)
+(*                               converted back, whether 00:00 exists on d, whether any local time of *)
+(*                               d exists, date after the zone-less round trip                        *)
 (*          token equality = round trip; membership = the offset is one in use around the instant     *)
 (*  "shape" a bundled zone's record reduced to small integers (seconds; separations of consecutive     *)
 (*          transitions capped at 10^6 s): it must be in the class of zones of the design model        *)
@@ -33,7 +36,7 @@ HarnessFails(in, out) ==
          THEN {F("C34.harness", "loc", n)} ELSE {}
          : n \in 1..Len(out.loc)} \cup
   UNION {LET e == out.dt[n] IN
-         IF e.exc = "" /\ (e.ex # B(Interp(z, Day * e.d) # {}) \/ e.um # OffAt(z, Day * e.d) \/ e.at # OffAt(z, e.t))
+         IF e.exc = "" /\ (e.ex # B(Interp(z, Day * e.d) # {}) \/ e.dx # B(~DaySkipped(z, e.d)) \/ e.um # OffAt(z, Day * e.d) \/ e.at # OffAt(z, e.t))
          THEN {F("C34.harness", "dt", n)} ELSE {}
          : n \in 1..Len(out.dt)}
 
@@ -49,7 +52,7 @@ RealFails(c) ==
          : n \in 1..Len(c.loc)} \cup
   UNION {LET e == c.dt[n] IN
          IF e.exc # "" THEN {F("C34.raised", "dt", n)}
-         ELSE IF e.back # e.d \/ e.u # e.d \/ (e.ex = 1 /\ e.tod # "00:00:00")
+         ELSE IF e.u # e.d \/ (e.dx = 1 /\ (e.back # e.d \/ (e.ex = 1 /\ e.tod # "00:00:00")))
               THEN {F("C34.date", "dt", n)} ELSE {}
          : n \in 1..Len(c.dt)}
 
@@ -61,7 +64,8 @@ ShapeFails(c) ==
      THEN {} ELSE {F("C34.assume", "", 0)}
 
 JudgeFails(c) ==
-  CASE c.k = "syn" -> Fails(c.inp, c.out) \cup (IF ShapeOk(c.inp, c.out) THEN HarnessFails(c.inp, c.out) ELSE {})
+  CASE c.k = "syn" -> IF ~WellFormed(c.inp.z) THEN {F("C34.assume", "", 0)}
+                      ELSE Fails(c.inp, c.out) \cup (IF ShapeOk(c.inp, c.out) THEN HarnessFails(c.inp, c.out) ELSE {})
     [] c.k = "real" -> RealFails(c)
     [] c.k = "shape" -> ShapeFails(c)
 
